@@ -9,7 +9,7 @@ composition `Aurora/Model/NodeLite.lean` (`gc` feeds `gcEvict` with the pyramids
 `ChunkPyramid.getUnRepeatChunk`, i.e. the real chunkinfo), both tied to the real node by the C12
 correspondence run.
 
-The code VIOLATES the property in three designed-in ways (each confirmed on the real code by a
+The code VIOLATES the property in four designed-in ways (each confirmed on the real code by a
 deterministic history, see the counterexample theorems and `notes/C12.md`).  Proved here, for all
 states / pyramids (no bound):
 
@@ -19,7 +19,7 @@ states / pyramids (no bound):
   is never deleted unless it is listed in the pyramid of an evicted (cached) file;
 * under the guard "no listed chunk and no candidate root has a pin entry" the run leaves the pin
   index untouched and keeps every pinned chunk (`C12_gc_pin_untouched_partial`);
-* the unguarded statement is false (`C12_gc_pin_untouched_counterexample`, + two more triggers).
+* the unguarded statement is false (`C12_gc_pin_untouched_counterexample`, + three more triggers).
 -/
 namespace Aurora.Localstore
 
@@ -244,5 +244,19 @@ def trigger3 : State × State :=
 theorem C12_counterexample_upload_after_unpin :
     (trigger3.1.ls.db.gc.length, trigger3.2.ls.db.gc.map (·.2), stored trigger3.2 2,
       stored (gc trigger3.2 0).1 2, stored (gc trigger3.2 0).1 1) = (0, [4], true, false, false) := by decide
+
+/-- history of trigger 4: file (root 1, data chunk 2) known from the peer's pyramid only (its
+    single data chunk arrives with the pyramid), then uploaded locally with the pin header -/
+def trigger4 : State :=
+  let fi : FileInfo := { fs := { root := 1, subs := [[2]], hash := [1, 2, 3, 4] }, writes := [2, 3, 4, 1], atN := true, atP := true }
+  apiUpload (findPyramid { files := [("y/a", fi)] } fi.fs) fi true
+
+/-- Trigger 4 (regression cases `fix-cached-then-uploaded[-pinned]`): the upload of a file that is
+    already cached leaves its root in the gc index; the next run evicts the file: uploaded chunks
+    and, for a pinned upload, all pin entries are deleted although the reference stays listed. -/
+theorem C12_counterexample_cached_then_uploaded :
+    (trigger4.ls.db.gc.map (·.2), trigger4.ls.db.pin.map (·.2), trigger4.pinned) = ([4], [1, 1, 1, 1], [1]) ∧
+    ((gc trigger4 0).1.ls.db.pin, stored (gc trigger4 0).1 2, (gc trigger4 0).1.pinned) = ([], false, [1]) := by
+  decide
 
 end Aurora.NodeLite
